@@ -285,6 +285,8 @@ func deterministicInputs() []input {
 	// KCP pre-shared key (undocumented): user-info password
 	add(posServer, "udp-password", "udp://:secret@127.0.0.1:{P}", "any")
 	add(posUpstream, "udp-password", "udp://:secret@127.0.0.1:{P}", "any")
+	// README L382 form with a trailing comma in the server list
+	add(posUpstream, "dns-empty-server-item", "dns://example.org?dns=127.0.0.1:{P},&direct=false", "any")
 
 	unknown := map[string][]string{
 		posServer:   {"foo", "ssl", "tls", "tcps", "socks", "socks5", "ftp", "tcp4", "tcp6", "websocket", "serial", "kcp", "quic", "doh", "unixgram+kcp", "dns+https", "tpc4"},
@@ -591,7 +593,7 @@ func TestVerifC18(t *testing.T) {
 
 	// work items: fixed function of (seed, tier)
 	det := deterministicInputs()
-	mutParse := mutantInputs(rec.Seed(), rec.Pick(160, 4000))
+	mutParse := mutantInputs(rec.Seed(), rec.Pick(600, 12000))
 	var items []caseDesc
 	n := 0
 	push := func(mon string, in input) {
@@ -610,7 +612,7 @@ func TestVerifC18(t *testing.T) {
 		}
 	}
 	for i, in := range mutParse {
-		if i < rec.Pick(30, 400) && startable(in) {
+		if i < rec.Pick(100, 1500) && startable(in) {
 			push("start", in)
 		}
 	}
@@ -621,7 +623,7 @@ func TestVerifC18(t *testing.T) {
 			}
 		}
 		for i, in := range mutParse {
-			if i >= rec.Pick(30, 400) && i < rec.Pick(30, 400)+rec.Pick(24, 300) && bbWorthwhile(in) {
+			if i >= rec.Pick(100, 1500) && i < rec.Pick(100, 1500)+rec.Pick(80, 1000) && bbWorthwhile(in) {
 				push("bb", in)
 			}
 		}
